@@ -235,22 +235,29 @@ impl StringPool {
     fn try_incref(&mut self, string: String) -> io::Result<StringRef> {
         // TODO: change the internal representation of StringPool to make this
         // more efficient.
-        for (index, &mut (ref mut st, ref mut refcount)) in
+        // Prefer an entry that already holds the string (anywhere in the
+        // pool) over an unused entry, so that the pool never spends two
+        // entries on one string while the first still has room.
+        let mut unused_index: Option<usize> = None;
+        for (index, &mut (ref st, ref mut refcount)) in
             self.strings.iter_mut().enumerate()
         {
             if *refcount == 0 {
-                // (A malformed file can have leftover text in an unused
-                // entry; it is simply overwritten.)
-                *st = string;
-                *refcount = 1;
-                self.is_modified = true;
-                return Ok(StringRef((index + 1) as i32));
-            }
-            if *st == string && *refcount < u16::MAX {
+                if unused_index.is_none() {
+                    unused_index = Some(index);
+                }
+            } else if *st == string && *refcount < u16::MAX {
                 *refcount += 1;
                 self.is_modified = true;
                 return Ok(StringRef((index + 1) as i32));
             }
+        }
+        if let Some(index) = unused_index {
+            // (A malformed file can have leftover text in an unused entry;
+            // it is simply overwritten.)
+            self.strings[index] = (string, 1);
+            self.is_modified = true;
+            return Ok(StringRef((index + 1) as i32));
         }
         if self.strings.len() >= u16::MAX as usize && !self.long_string_refs {
             // TODO: If this happens, we need to rewrite all database tables
